@@ -871,9 +871,13 @@ fn format_interpolated_string(
         let mut expression = format_expression(ctx, &segment.expression, shape);
         shape = shape.take_last_line(&expression);
 
-        // If expression is a table constructor, then ensure a space is added beforehand
-        // since `{{` syntax is not permitted
-        if let Expression::TableConstructor { .. } = expression {
+        // If expression begins with a table constructor [e.g. `{}`, `{} :: any`, `{} == x`], then ensure a space is
+        // added beforehand since `{{` syntax is not permitted
+        let begins_with_brace = expression
+            .tokens()
+            .next()
+            .is_some_and(|token| token.token().to_string() == "{");
+        if begins_with_brace {
             expression =
                 expression.update_leading_trivia(FormatTriviaType::Append(vec![Token::new(
                     TokenType::spaces(1),
